@@ -192,6 +192,35 @@ theorem gen_ct_serialize_fails_cleanly :
 theorem gen_kswitch_serialize_fails_cleanly :
     type_of% @HC.GS.c15g_kswitch_serialize_fails_cleanly := @HC.GS.c15g_kswitch_serialize_fails_cleanly
 
+/-- INTERRUPTS: the generated `EncryptionParameters` / `Plaintext` writers on a stream that also answers `ErrorKind::Interrupted` are the
+    model's `serializeI` in `write_all` mode — the object `serialize_interrupts_invisible` / `serialize_faulty_interrupting` are about -/
+theorem gen_source_writers_interrupting :
+    type_of% @HC.GS.c15g_source_writers_interrupting := @HC.GS.c15g_source_writers_interrupting
+
+/-- … hence, for the generated `EncryptionParameters` writer, on every interrupting / short-writing / failing stream: complete encoding
+    with the right count, or an error with a prefix on the wire -/
+theorem gen_params_writer_interrupt_safe (p : Params) (hp : p.scheme < 256) (w : SinkI) :
+    (∀ n, (HC.GenS.params_serialize HC.GS.sinkIStream p w).1 = .ok n →
+      n = (paramsC.enc p).length ∧ (HC.GenS.params_serialize HC.GS.sinkIStream p w).2.s.out = w.s.out ++ paramsC.enc p) ∧
+    (∀ e, (HC.GenS.params_serialize HC.GS.sinkIStream p w).1 = .error e →
+      ∃ j, j ≤ (paramsC.enc p).length ∧ (HC.GenS.params_serialize HC.GS.sinkIStream p w).2.s.out = w.s.out ++ (paramsC.enc p).take j) := by
+  have hm : genWMode = fun _ => WMode.writeAll := funext gen_writers_use_write_all
+  have hc := serialize_faulty_interrupting (paramsC.chunks p) w
+  rw [hm] at hc
+  rw [(HC.GS.c15g_source_writers_interrupting w).1 p hp]
+  rcases h : serializeI (fun _ => WMode.writeAll) (paramsC.chunks p) w with ⟨r, w'⟩
+  rw [h] at hc
+  cases r with
+  | ok n =>
+    refine ⟨fun m hm' => ?_, fun e he => ?_⟩
+    · have : m = n := by simp only [HC.GS.liftIOI] at hm'; injection hm' with hm'; exact hm'.symm
+      subst this; exact hc.1 m rfl
+    · simp [HC.GS.liftIOI] at he
+  | error e0 =>
+    refine ⟨fun m hm' => ?_, fun e he => ?_⟩
+    · simp [HC.GS.liftIOI] at hm'
+    · exact hc.2 e0 rfl
+
 /-- not an I/O fault, recorded: `write_u64_limited` with a value that does not fit writes the truncated bytes, then panics -/
 theorem gen_limited_writer_panics_after_writing :
     type_of% @HC.GS.c15g_limited_writer_panics_after_writing := @HC.GS.c15g_limited_writer_panics_after_writing
@@ -208,5 +237,8 @@ example : HC.GenS.u64_serialize HC.GS.sinkStream 578437695752307201 ⟨[3], none
     = (.ok 8, ⟨[3], none, 3, [1, 2, 3, 4, 5, 6, 7, 8]⟩) := by rfl
 example : HC.GenS.u64_serialize HC.GS.sinkStream 578437695752307201 ⟨[3], some 1, 0, []⟩
     = (.error (.io .fault), ⟨[3], some 1, 2, [1, 2, 3]⟩) := by rfl
+/-- the generated `u64` writer with three interrupted calls on a 3-byte-per-call stream: all 8 bytes delivered -/
+example : HC.GenS.u64_serialize HC.GS.sinkIStream 578437695752307201 ⟨⟨[3], none, 0, []⟩, [0, 1, 3], 0⟩
+    = (.ok 8, ⟨⟨[3], none, 3, [1, 2, 3, 4, 5, 6, 7, 8]⟩, [0, 1, 3], 6⟩) := by rfl
 
 end HC.C15
